@@ -3,10 +3,11 @@ from __future__ import annotations
 
 from .. import await_gen as G
 from .. import await_h as H
+from .. import client_h as C
 from ..runner import Suite
 
 MANIFEST = dict(
-    text='Lean 4 theorems about a timed model of send_message/_await_response (Await.run: well-founded recursion, arbitrary poll period, both tie orders, histories of any length): a return is the payload of the first response bearing the sent id, foreign/same-id-request/batch messages never complete the call, timeout iff no matching response, one request written. The hand-written model is tied to the code by a correspondence run of the real send_message under a virtual-time event loop.',
+    text='Lean 4 theorems about a timed model of send_message/_await_response (Await.run: well-founded recursion, arbitrary poll period, both tie orders, histories of any length): a return is the payload of the first response bearing the sent id, foreign/same-id-request/batch messages never complete the call, timeout iff no matching response, one request written; consecutive requests on ONE connection (connSeq: what earlier requests left in the stream is searched, never returned unless it bears the id; segments disjoint) and the high-level MCPClient on top (clientSeq: lazy initialize on the same connection, result = first unconsumed response bearing the call's own request id, request written iff initialized, initialized stays). The hand-written model is tied to the code by a correspondence run of the real send_message under a virtual-time event loop.',
     note='Trusted: Lean kernel (axioms propext, Classical.choice, Quot.sound only), the correspondence harness and virtual-time loop; anyio/asyncio semantics are sampled, not proved. result:null responses are outside the quantifier.',
     technique='Lean 4 proof (fun_induction over a timed state-machine model) + differential correspondence run under virtual time',
     design='5/C01',
@@ -17,6 +18,8 @@ SUPP_THEOREMS = ["c01_chain_regenerated"]
 THEOREMS = [
     "c01_result_sound", "c01_never_foreign", "c01_foreign_kinds", "c01_timeout_complete",
     "c01_complete", "c01_single_request_written", "c01_id_type_sensitive", "c01_siblings_independent",
+    "c01_connection_result_sound", "c01_connection_segments", "c01_client_result_sound", "c01_client_initialized_stays",
+    "c01_client_request_iff_initialized", "c01_client_uninitialized_initializes",
 ]
 RULE = (
     "timed histories over {matching result, matching error, same-id server request, other-id response, int/str "
@@ -25,7 +28,11 @@ RULE = (
     "plus seeded histories of length<=12; real send_message under the virtual-time loop vs Await.run; non-trivial = "
     "distinct case with at least one event; siblings: 2-3 requests in one process (sequential with idle gaps / concurrent on "
     "separate connections) with equal or twin ids and strays bearing the siblings' ids, vs Await.runSeq without a token; "
-    "write stream open / closed / blocked after the request; a call still running after deadline + 4 polls + 1 s is observed as hung"
+    "write stream open / closed / blocked after the request; a call still running after deadline + 4 polls + 1 s is observed as hung; "
+    "client-calls: 1-4 consecutive calls (6 operations) of one real MCPClient over a fake Transport with a reactive scripted peer "
+    "(initialize answered ok / twice / late duplicate / error / -32602 version text / unsupported version / invalid shape / never; "
+    "answers, duplicates, errors, silence; strays bearing the initialize id, the previous call's id, other ids) vs ClientApi.clientSeq "
+    "on the recorded connection stream (start ticks, requests written and when, outcome, payload marker, end tick)"
 )
 TRUSTED = ["anyio memory streams / cancel scopes / asyncio scheduling (sampled under the virtual-time loop)"]
 ASSUMPTIONS = [
@@ -277,5 +284,210 @@ class Siblings(Suite):
                 yield c
 
 
+class ClientCalls(Suite):
+    """2-4 consecutive calls of one high-level `MCPClient` on ONE connection (fake transport, reactive
+    scripted peer): the first call initializes lazily; duplicated / late `initialize` answers, answers
+    to earlier calls and strays are still in the stream when the next request starts."""
+    name = "client-calls"
+    parallel = True
+    _dflt = None
+
+    def dflt(self):
+        if ClientCalls._dflt is None:
+            ClientCalls._dflt = C.defaults()
+        return ClientCalls._dflt
+
+    def cases(self, ctx, budget):
+        rng = ctx.sub_rng("c01-client", budget)
+        sup = self.dflt()["supported"]
+        out = []
+        k = [0]
+
+        def fresh():
+            k[0] += 1
+            return k[0]
+
+        def stray(idsym):
+            kind = rng.choice(["resp-init", "resp-op", "err", "req", "notif"])
+            if kind == "notif":
+                return {"k": "notif", "method": rng.choice(["notifications/message", "notifications/tools/list_changed"])}
+            if kind == "req":
+                return {"k": "req", "id": idsym, "method": "sampling/createMessage"}
+            if kind == "err":
+                return {"k": "err", "id": idsym, "code": rng.choice([-32603, -32000, 7]), "msg": "stray"}
+            if kind == "resp-init":
+                return {"k": "resp", "id": idsym, "p": C.init_payload(fresh(), rng.choice(sup))}
+            return {"k": "resp", "id": idsym, "p": C.OPS[rng.choice(list(C.OPS))]["payload"](fresh())}
+
+        def others():
+            return rng.choice([{"s": "zz"}, {"i": 0}, {"i": 1}, {"s": "1"}, "$INIT", "$LAST", "$INIT", "$LAST"])
+
+        for _ in range(1200 if budget == "quick" else 40000):
+            calls = []
+            for _j in range(rng.choice([1, 2, 2, 3, 4])):
+                op = rng.choice(list(C.OPS))
+                # how the server answers an `initialize` issued by this call
+                ikind = rng.choice(["ok", "ok", "ok", "ok-dup", "ok-late-dup", "error", "error-version", "unsupported", "bad-shape", "silence"])
+                d0 = rng.choice([0, 1, 3, 511, 512, 513, 2000])
+                iscript = []
+                for _s in range(rng.choice([0, 0, 1, 2])):
+                    iscript.append([rng.choice([0, 1, d0]), stray(others())])
+                if ikind.startswith("ok"):
+                    iscript.append([d0, {"k": "resp", "id": "$ID", "p": C.init_payload(fresh(), rng.choice(sup))}])
+                    if ikind == "ok-dup":
+                        iscript.append([d0, {"k": "resp", "id": "$ID", "p": C.init_payload(fresh(), rng.choice(sup))}])
+                    if ikind == "ok-late-dup":
+                        iscript.append([d0 + rng.choice([1, 5, 600]), {"k": "resp", "id": "$ID", "p": C.OPS[op]["payload"](fresh())}])
+                elif ikind == "error":
+                    iscript.append([d0, {"k": "err", "id": "$ID", "code": rng.choice([-32603, -32601, -32000, 429, 0]), "msg": "no"}])
+                elif ikind == "error-version":
+                    iscript.append([d0, {"k": "err", "id": "$ID", "code": -32602, "msg": "Unsupported protocol version"}])
+                elif ikind == "unsupported":
+                    iscript.append([d0, {"k": "resp", "id": "$ID", "p": C.init_payload(fresh(), "1999-01-01")}])
+                elif ikind == "bad-shape":
+                    iscript.append([d0, {"k": "resp", "id": "$ID", "p": C.init_payload(fresh(), rng.choice(sup), "no-server-info")}])
+                iscript.sort(key=lambda x: x[0])
+                rkind = rng.choice(["ok", "ok", "ok", "ok-dup", "error", "silence"] if rng.random() < 0.9 else ["silence"])
+                d1 = rng.choice([0, 1, 3, 511, 512, 513, 1500])
+                rscript = []
+                for _s in range(rng.choice([0, 1, 1, 2, 3])):
+                    rscript.append([rng.choice([0, 1, d1]), stray(others())])
+                if rkind.startswith("ok"):
+                    rscript.append([d1, {"k": "resp", "id": "$ID", "p": C.OPS[op]["payload"](fresh())}])
+                    if rkind == "ok-dup":
+                        rscript.append([d1 + rng.choice([0, 1, 700]), {"k": "resp", "id": "$ID", "p": C.OPS[op]["payload"](fresh())}])
+                elif rkind == "error":
+                    rscript.append([d1, {"k": "err", "id": "$ID", "code": rng.choice([-32603, -32601, -32000, 429, 0, -32602]), "msg": "no"}])
+                rscript.sort(key=lambda x: x[0])
+                calls.append({"op": op, "gap": rng.choice([0, 0, 1, 700]), "initScript": iscript, "reqScript": rscript})
+            out.append({"tie": rng.choice(["events", "timers", "io"]), "calls": calls, "debug": rng.random() < 0.25})
+        return out
+
+    def impl_batch(self, cases):
+        return [C.run_calls(c) for c in cases]
+
+    def model_line(self, case, o=None):
+        if o is None or o.get("harness_errors"):
+            return None
+        return C.model_line(case, o, self.dflt())
+
+    def model_obs(self, out, case):
+        return out
+
+    @staticmethod
+    def _expect(spec, m):
+        """what the model's record of one call says the caller and the wire see"""
+        e = {"start": m["start"], "requests": [], "init_ok": None}
+        fin = None
+        if m.get("init") is not None:
+            e["requests"].append(["initialize", m["start"]])
+            fin = (m["init"], m["start"])
+        if m.get("req") is not None:
+            e["requests"].append([C.OPS[spec["op"]]["method"], m["req"]["start"]])
+            fin = (m["req"], m["req"]["start"])
+            e["init_ok"] = True if m.get("init") is not None else None
+        elif m.get("init") is not None:
+            e["init_ok"] = False
+        o, s = fin
+        e["end"] = s + o["t"]
+        if m.get("req") is not None:
+            e["outcome"] = o["outcome"]
+            if o["outcome"] == "returned":
+                e["marker"] = C.payload_marker(o["p"])
+            if o["outcome"] == "raised":
+                e["code"], e["retryable"] = o["code"], o["retryable"]
+        else:
+            # the call fails the way its `initialize` failed
+            if o["outcome"] == "returned":
+                e["outcome"] = "init-result-rejected"
+            elif o["outcome"] == "raised" and o["code"] == -32602 and "protocol version" in (o.get("msg") or "").lower():
+                e["outcome"] = "version-mismatch"  # the documented mapping of send_initialize
+            else:
+                e["outcome"] = o["outcome"]
+                if o["outcome"] == "raised":
+                    e["code"], e["retryable"] = o["code"], o["retryable"]
+        return e
+
+    @staticmethod
+    def _seen(spec, r):
+        e = {"start": r["start"], "end": r["end"],
+             "requests": [[w["method"], w["tick"]] for w in r["writes"] if w["id"] is not None and w["method"]]}
+        ninit = sum(1 for w in r["writes"] if w["method"] == "notifications/initialized")
+        has_init = any(w["method"] == "initialize" for w in r["writes"])
+        e["init_ok"] = (ninit == 1) if has_init else None
+        oc = r["outcome"]
+        if oc in ("version-mismatch", "exception") and has_init and ninit == 0 and len(e["requests"]) == 1:
+            # which of the two it is for a rejected RESULT is C03's subject
+            e["outcome"] = "version-mismatch" if (oc == "version-mismatch" and "unknown" in (r.get("text") or "")) else "init-result-rejected"
+        else:
+            e["outcome"] = oc
+        if oc == "returned":
+            e["marker"] = r.get("marker")
+        if oc == "raised":
+            e["code"], e["retryable"] = r["code"], r["retryable"]
+        return e
+
+    def compare(self, case, o, m):
+        from ..core import canon
+        if len(m) != len(o["calls"]):
+            return "differs"
+        a = [self._seen(s, r) for s, r in zip(case["calls"], o["calls"])]
+        b = [self._expect(s, x) for s, x in zip(case["calls"], m)]
+        return None if canon(a) == canon(b) else "differs"
+
+    def kind(self, case, o):
+        return "client/" + "+".join(("i" if any(w["method"] == "initialize" for w in r["writes"]) else "") + r["outcome"] for r in o["calls"])
+
+    def nontrivial(self, case, o):
+        return True
+
+    def oracle(self, case, o):
+        """the property text, read off the wire: a call that returns hands back the payload of the first
+        response on the connection bearing the id of ITS OWN request; it writes exactly one request with
+        its method and arguments; an initialized client does not initialize again"""
+        if o.get("harness_errors"):
+            return None
+        initialized = False
+        for i, (spec, r) in enumerate(zip(case["calls"], o["calls"])):
+            op = C.OPS[spec["op"]]
+            inits = [w for w in r["writes"] if w["method"] == "initialize"]
+            own = [w for w in r["writes"] if w["id"] is not None and w["method"] and w["method"] != "initialize"]
+            if initialized and inits:
+                return ("client/initialized-twice", f"call {i} ({spec['op']}) of an initialized client wrote another initialize request", {"initialize": 0})
+            if len(inits) > 1:
+                return ("client/initialized-twice", f"call {i} ({spec['op']}) wrote {len(inits)} initialize requests", {"initialize": 1})
+            if r["outcome"] == "returned" or r["initialized"]:
+                if len(own) != 1 or own[0]["method"] != op["method"] or (own[0]["params"] or {}) != (op["params"] or {}):
+                    return ("client/request-content", f"call {i} ({spec['op']}) wrote {[(w['method'], w['params']) for w in own]}", {"method": op["method"], "params": op["params"]})
+            elif own:
+                return ("client/request-without-initialize", f"call {i} ({spec['op']}): initialize did not succeed, yet {own[0]['method']} was written", {"requests": 0})
+            initialized = bool(r["initialized"])
+            if r["outcome"] == "returned":
+                sent = own[0]["id"]
+                first = next((ev for _, ev in o["stream"] if ev["k"] in ("resp", "err") and H._idval(ev["id"], {}) == sent
+                              and type(H._idval(ev["id"], {})) is type(sent)), None)
+                if first is None:
+                    return ("client/returned-without-response", f"call {i} ({spec['op']}) returned {r.get('marker')} although no response bears its id {sent!r}", {"outcome": "timeout"})
+                if first["k"] != "resp" or C.payload_marker(first["p"]) != r.get("marker"):
+                    return ("client/returned-not-own-response", f"call {i} ({spec['op']}, id {sent!r}) returned {r.get('marker')}; the first message bearing its id is {first}", {"marker": C.payload_marker(first.get("p"))})
+        return None
+
+    def shrink_candidates(self, case):
+        if len(case["calls"]) > 1:
+            for i in range(len(case["calls"])):
+                c = dict(case)
+                c["calls"] = case["calls"][:i] + case["calls"][i + 1:]
+                yield c
+        for i, sp in enumerate(case["calls"]):
+            for key in ("initScript", "reqScript"):
+                for j in range(len(sp[key])):
+                    c = dict(case)
+                    c["calls"] = [dict(x) for x in case["calls"]]
+                    c["calls"][i][key] = sp[key][:j] + sp[key][j + 1:]
+                    yield c
+        if case.get("debug"):
+            yield dict(case, debug=False)
+
+
 def suites():
-    return [Histories(), Siblings()]
+    return [Histories(), Siblings(), ClientCalls()]
